@@ -195,10 +195,15 @@ func VP_C03_Route() {
 	}
 	// every refused id was answered "na"
 	na := 0
-	for i := 0; i+4 <= len(stream.out); i++ {
-		if string(stream.out[i:i+4]) == "\x03na\n" {
+	for i := 0; i < len(stream.out); { // the answer stream is a sequence of length-prefixed tokens (all shorter than 128 bytes here)
+		n := int(stream.out[i])
+		if i+1+n > len(stream.out) {
+			break
+		}
+		if n == 3 && string(stream.out[i+1:i+1+n]) == "na\n" {
 			na++
 		}
+		i += 1 + n
 	}
 	vp.Assert(na == refusals, "each-refused-id-answered-na")
 	_ = io.EOF
